@@ -46,7 +46,9 @@ func bytesToBigInt(v []byte) *big.Int {
 		bv := big.NewInt(0).SetBytes(v)
 		return bv
 	}
-	// Negative integer
+	// Negative integer. Work on a copy: v aliases the caller's input buffer,
+	// which must not be modified by decoding.
+	v = append([]byte(nil), v...)
 	bv := big.NewInt(0)
 	carry := byte(1)
 	for i := len(v) - 1; i >= 0; i-- {
